@@ -65,16 +65,28 @@ class Anchors:
         self.v_payload = self.variants["ParsingEscPayload"]
         lf = st["variants"][self.v_look]["fields"]
         self.look_fields = [f["name"] for f in lf]
-        if "num_discarded_bytes" in self.look_fields and "num_init_seq_bytes" in self.look_fields:
-            self.i_disc = self.look_fields.index("num_discarded_bytes")
-            self.i_init = self.look_fields.index("num_init_seq_bytes")
+        # the two counters of the start search, wherever they live inside the variant's payload (directly, or inside a private
+        # struct held by the variant): integer leaves with their access paths
+        leaves = []
+
+        def walk(fields, path, depth):
+            for i, fl in enumerate(fields):
+                t = fl["ty"]
+                if t.get("k") == "int":
+                    leaves.append((path + (i,), fl["name"], t.get("w", 0), t))
+                elif t.get("k") == "adt" and depth < 3 and t["def"] in F.adts and F.adts[t["def"]]["kind"] == "struct":
+                    walk(F.adts[t["def"]]["variants"][0]["fields"], path + (i,), depth + 1)
+        walk(lf, (), 0)
+        byname = {nm: (pth, t) for pth, nm, w, t in leaves}
+        if "num_discarded_bytes" in byname and "num_init_seq_bytes" in byname:
+            self.p_disc, self.p_init = byname["num_discarded_bytes"][0], byname["num_init_seq_bytes"][0]
         else:
             # renamed: the noise counter is the wider of the two integers
-            ws = [f["ty"].get("w", 0) for f in lf]
-            if len(lf) != 2 or ws[0] == ws[1]:
+            if len(leaves) != 2 or leaves[0][2] == leaves[1][2]:
                 raise AnchorMissing("fields of the start-search state cannot be identified")
-            self.i_disc = 0 if ws[0] > ws[1] else 1
-            self.i_init = 1 - self.i_disc
+            wide = 0 if leaves[0][2] > leaves[1][2] else 1
+            self.p_disc, self.p_init = leaves[wide][0], leaves[1 - wide][0]
+        self.disc_ty = [t for pth, nm, w, t in leaves if pth == self.p_disc][0]
         pfl = st["variants"][self.v_payload]["fields"]
         pf = [f["name"] for f in pfl]
         if "step" in pf and "payload" in pf:
@@ -101,6 +113,21 @@ class Anchors:
         if len(r) != 1:
             raise AnchorMissing("NonOwningDecoder::%s: %d bodies" % (name, len(r)))
         return r[0]
+
+    @staticmethod
+    def _at(pay, path):
+        v = pay[path[0]]
+        for i in path[1:]:
+            v = v.elems[i]
+        return v
+
+    def look_init(self, pay):
+        """matcher position (number of start-sequence bytes matched) in the payload of the start-search variant"""
+        return self._at(pay, self.p_init)
+
+    def look_disc(self, pay):
+        """noise counter in the payload of the start-search variant"""
+        return self._at(pay, self.p_disc)
 
     def variant_of(self, st, obj):
         return st.const_of(obj.elems[self.i_state].disc)
@@ -384,7 +411,44 @@ def frame_analysis(A, an):
             if isinstance(v, VInt):
                 st.ghost["dec-b"] = v.lin
 
+    def on_res(ip_, frame, bb, t, callee, args, outs_):
+        # Buffer::extend_from_slice(slice) = one push per element: the outcomes are split by the (small) length of the slice and
+        # every element is logged like a pushed byte; a slice of unbounded length is logged as one unknown byte (rules fail closed)
+        if not (callee.get("trait") == "util::Buffer" and callee.get("method") == "extend_from_slice"):
+            return
+        from ..vra.stdsum import as_slice, slice_elem
+        new = []
+        for (s2, v) in outs_:
+            if self_root(s2) is None or not s2.ghost.get("fa-on"):
+                new.append((s2, v))
+                continue
+            try:
+                sl = as_slice(ip_, s2, args[1])
+            except Unsupported:
+                sl = None
+            lo, hi = s2.interval(sl.n) if sl is not None else (None, None)
+            if sl is None or lo is None or hi is None or hi - lo > 8 or hi > 16:
+                s2.ghost["fa-pushed"] = s2.ghost.get("fa-pushed", ()) + (ip_.fresh_int(s2, 8, False, "bytes of a slice of unknown length").lin,)
+                s2.ghost["fa-bufpush"] = s2.ghost.get("fa-bufpush", 0) + 1
+                new.append((s2, v))
+                continue
+            for n in range(max(lo, 0), hi + 1):
+                s3 = s2 if lo == hi else s2.copy()
+                try:
+                    s3.assume_eq0(sl.n - n)
+                except Infeasible:
+                    continue
+                lins = []
+                for i in range(n):
+                    e = slice_elem(ip_, s3, sl, Lin.const(i))
+                    lins.append(e.lin if isinstance(e, VInt) else ip_.fresh_int(s3, 8, False, "slice element").lin)
+                s3.ghost["fa-pushed"] = s3.ghost.get("fa-pushed", ()) + tuple(lins)
+                s3.ghost["fa-bufpush"] = s3.ghost.get("fa-bufpush", 0) + n
+                new.append((s3, v))
+        outs_[:] = new
+
     ip.on_call.append(on_call)
+    ip.on_call_result.append(on_res)
     ip.on_crc.append(on_crc)
     ip.on_assign.append(on_assign)
     ip.on_block.append(on_block)
@@ -429,6 +493,7 @@ def frame_analysis(A, an):
     finally:
         ip.join_threshold = old_thr
         ip.on_call.remove(on_call)
+        ip.on_call_result.remove(on_res)
         ip.on_crc.remove(on_crc)
         ip.on_assign.remove(on_assign)
         ip.on_block.remove(on_block)
